@@ -466,10 +466,22 @@ def _check_async(case):
                         h.plan[:] = ['ok' if s == 'reconnect_ok' else 'fail']
                         loop.run_until_idle()
                         loop.advance()
-                        answer()
-                        loop.run_until_idle()
-                        if s == 'reconnect_fail' and live[0].done():
-                            final[0] = True
+                        # the server's CONNECT answer is dispatched as its
+                        # own task, so that stimuli that follow in this group
+                        # (an event right behind it) are processed back to
+                        # back, before the application task runs again
+                        if h.eio.state == 'connected' and \
+                                '/ns' not in h.sio.namespaces:
+                            nconn[0] += 1
+                            for f in wire.frames(wire.CONNECT, '/ns', None,
+                                                 {'sid': 'sid%d' % nconn[0]}):
+                                spawned.append(loop.spawn(
+                                    h.eio._receive_packet(ep.Packet(
+                                        ep.MESSAGE, f))))
+                        if s == 'reconnect_fail':
+                            loop.run_until_idle()
+                            if live[0].done():
+                                final[0] = True
                 elif s == 'emit':
                     before = len(h.outbox)
                     emits.append((loop.spawn(sc.emit('x', 1)), before))
